@@ -461,7 +461,10 @@ class Model:
         elif isinstance(constr, PWConstr):
             ro_constr_list = []
             for piece in constr.pieces:
-                ro_constr_list.extend(self.ro_to_roc(piece))
+                if getattr(piece, 'ctype', 'R') == 'E':
+                    ro_constr_list.extend(self.dro_to_roc(piece))
+                else:
+                    ro_constr_list.extend(self.ro_to_roc(piece))
         elif isinstance(constr, DecCvxConstr):
             ro_constr_list = self.ro_to_roc(constr)
         elif constr.ctype == 'R':
